@@ -131,3 +131,51 @@ func VH_C20_getConn() {
 	}
 	vReach("end")
 }
+
+type vTimeoutErr struct{}
+
+func (vTimeoutErr) Error() string   { return "ghost i/o timeout" }
+func (vTimeoutErr) Timeout() bool   { return true }
+func (vTimeoutErr) Temporary() bool { return true }
+
+//verif:check C01,C20,C04 stubs=rt,timers,valuefile,abslog reach=failed,answered,end desc="connPool.doRPC (vote and timeout-now requests): a request whose reply does not arrive - the read ends in a timeout, a hang-up or a truncated reply - leaves no connection in the pool: the connection is closed, so a reply that turns up later can never be taken for the answer to the next request (a late vote grant of an older term counted in a newer election); a request that is answered puts the connection back" bounds="one request on a freshly dialled connection; the peer's reply complete, truncated at any byte, or timing out; any reply term/result"
+func VH_C01_doRPC_failure_closes() {
+	r := vLoopNode(Follower)
+	r.resolver.addrs[2] = vAddr(2)
+	id := &identityResp{resp{term: 1, result: success}}
+	vr := &voteResp{resp{term: vU64("reply.term"), result: rpcResult(vU8("reply.result"))}}
+	vAssume(vr.result != unexpectedErr)
+	var w bytes.Buffer
+	if err := id.encode(&w); err != nil {
+		panic(err)
+	}
+	n0 := w.Len()
+	if err := vr.encode(&w); err != nil {
+		panic(err)
+	}
+	script := w.Bytes()
+	vc := &vConn{}
+	switch vChoice(3) {
+	case 0: // answered
+		vc.rd = script
+	case 1: // the peer hangs up inside the reply
+		vc.rd = script[:n0+vChoice(len(script)-n0)]
+	case 2: // nothing (more) arrives before the deadline
+		vc.rd = script[:n0+vChoice(len(script)-n0)]
+		vc.readErr = vTimeoutErr{}
+	}
+	pool := r.getConnPool(2)
+	pool.dialFn = func(network, address string, timeout time.Duration) (net.Conn, error) { return vc, nil }
+	resp := &voteResp{}
+	err := pool.doRPC(&voteReq{req: req{r.term + 1, r.nid}}, resp, time.Now())
+	if err != nil {
+		vReach("failed")
+		vAssert(len(pool.conns) == 0, "D-no-connection-pooled-after-a-failed-request")
+		vAssert(vc.closed, "D-connection-closed-after-a-failed-request")
+	} else {
+		vReach("answered")
+		vAssert(resp.term == vr.term && resp.result == vr.result, "D-reply-decoded-as-sent")
+		vAssert(len(pool.conns) == 1 && !vc.closed, "D-answered-request-returns-the-connection")
+	}
+	vReach("end")
+}
